@@ -11,7 +11,7 @@ import json
 import re
 import warnings
 
-from .. import gen_graph, rev_impl
+from .. import gen_graph, rev_impl, revfake
 from . import _rev_common as common
 
 PROPERTY = "C16"
@@ -139,6 +139,37 @@ def run(ctx, rng_name="main"):
             for rows in states:
                 for up in (True, False):
                     cases.append(("parse", base, {"target": ident, "rows": rows, "up": up}, impl_parse(m, rows, ident, up)))
+        # the same map kept alive while the history grows (ScriptDirectory.generate_revision ->
+        # RevisionMap.add_revision): resolve, add a new head, resolve again.  The answers after the
+        # addition must be those of the full history (the model is stateless).
+        if g % 3 == 0 and len(hist) >= 3:
+            heads_now = [r for r in hist if not any(r["id"] in q["down"] or r["id"] in q["deps"] for q in hist)]
+            late = heads_now[-1] if heads_now else None
+            if late is not None and not late["labels"]:
+                early = [r for r in hist if r is not late]
+                sd2, info2 = rev_impl.load(early)
+                if sd2 is not None:
+                    m2 = sd2.revision_map
+                    probe = [i for i in idents_for(rng, hist) if "@" in i][:60] + ["head", "heads"] + [late["id"], late["id"][:-1]]
+                    for ident in probe:  # fills whatever the map caches
+                        impl_get(m2, ident, False)
+                    try:
+                        with warnings.catch_warnings():
+                            warnings.simplefilter("ignore")
+                            m2.add_revision(revfake.make_scripts([late])[0])
+                        added = True
+                    except Exception:  # noqa  (refused additions are C17's business)
+                        added = False
+                    if added:
+                        ctx.hist("graph", "grown-in-place")
+                        # the full history in the order the live map holds it: early + [late]
+                        base2 = {"revs": early + [late], "normOrder": info["normOrder"]}
+                        sd3, info3 = rev_impl.load(early + [late])
+                        if sd3 is not None:
+                            base2["normOrder"] = info3["normOrder"]
+                            for ident in probe:
+                                for single in (False, True):
+                                    cases.append(("resolve", base2, {"ident": ident, "single": single, "grown": True}, impl_get(m2, ident, single)))
         if len(cases) > 4000:
             judge(ctx, cases)
             cases = []
@@ -295,6 +326,13 @@ def classify(failure):
 def replay(ctx, case):
     inp = case["input"]
     sd, info = rev_impl.load(inp["revs"])
+    if inp.get("grown"):
+        # the map was loaded without the last revision, asked the same question, then grew in place
+        sd, _ = rev_impl.load(inp["revs"][:-1])
+        impl_get(sd.revision_map, inp["ident"], False)
+        with warnings.catch_warnings():
+            warnings.simplefilter("ignore")
+            sd.revision_map.add_revision(revfake.make_scripts(inp["revs"][-1:])[0])
     if inp["kind"] == "resolve":
         impl = impl_get(sd.revision_map, inp["ident"], inp["single"])
         model = ctx.drv.ask1({"op": "rev.resolve", **inp})
